@@ -125,6 +125,16 @@ def gen_system(rng):
     return case
 
 
+def gen_crowded(rng):
+    """many chains with mixed residue sizes in a tight box, grown with long steps (step factor 1.4-1.8) under a low force
+    limit: the trial positions lie far from the previous residue, next to residues that are not near the previous one"""
+    mts = [systems.gen_moltype(rng, 'MA', nres=rng.randint(8, 12), shape='path', multi_atom=rng.random() < 0.5)]
+    e = rng.uniform(5.5, 6.5)
+    opts = {'box': [round(e, 3), round(e * rng.uniform(0.9, 1.1), 3), round(e, 3)], 'step_fudge': rng.choice([1.4, 1.6, 1.8]),
+            'max_force': rng.choice([1e3, 1e3, 5e4]), 'nrewind': 5, 'grid_spacing': 0.5}
+    return {'moltypes': mts, 'molecules': [('MA', rng.randint(25, 40))], 'opts': opts, 'seed': rng.randrange(10 ** 6), 'crowded': True}
+
+
 def run_monitored(case, timeout=60):
     """complete gen_coords run with the placement calls recorded and judged"""
     rec = {'placements': [], 'bad': [], 'grid': None}
@@ -271,11 +281,12 @@ def run(ctx):
     search_mixed(ctx)      # force limit with mixed sizes positioned out of topology order
     search_floor(ctx)      # engine-level probe of the 0.1 nm floor / force limit (graph neighbours included); cheap, always run
     cases = [c for _, c in core.corpus_cases('C05')]
+    cases += [gen_crowded(ctx.rng) for _ in range(ctx.n(2, 16))]
     cases += [gen_system(ctx.rng) for _ in range(ctx.n(14, 150))]
     nplace = 0
     timeouts = 0
     if ctx.broken:
-        cases = cases[:4]
+        cases = cases[:6]
     for case in cases:
         if timeouts >= 2:
             ctx.note("two generated systems did not finish within the time limit; remaining runs skipped")
@@ -287,6 +298,8 @@ def run(ctx):
         ctx.feature('runs_ok' if rec['ok'] else 'runs_failed')
         if case.get('ligands'):
             ctx.feature('runs_with_ligands_on_individual_copies')
+        if case.get('crowded'):
+            ctx.feature('crowded_runs_with_long_steps')
         ctx.feature('placements', len(rec['placements']))
         ctx.feature('placements_with_neighbours', sum(1 for p in rec['placements'] if p.get('near')))
         if not rec['ok']:
